@@ -269,7 +269,9 @@ def run_property(prop, tier, seed):
         reg = load_registry()
         contracts = [c for c in reg.by_key.values() if prop in c.props]
         lemmas = [lm for lm in reg.lemmas.values() if prop in lm.props]
-        if not contracts and not lemmas:
+        from pyvc import effects
+        frame_obls = effects.obligations(REPO, prop) if prop in effects.PROP_FILTER else []
+        if not contracts and not lemmas and not frame_obls:
             return None
         externals.USED.clear()
         meta, res, functions, undecided_fn, wall = run_contracts(reg, contracts, lemmas)
@@ -319,6 +321,13 @@ def run_property(prop, tier, seed):
                 rec["reason"] = o.get("reason", "")
                 out["undecided"].append({"name": name, "reason": o.get("reason", "")})
             out["results"].append(rec)
+        for o in frame_obls:
+            out["obligations"] += 1
+            out["results"].append(o)
+            if o["status"] == "discharged":
+                out["discharged"] += 1
+            else:
+                out["undecided"].append({"name": o["name"], "reason": o["reason"]})
         for key, why in undecided_fn.items():
             out["undecided"].append({"name": key, "reason": why})
             out["obligations"] += 1          # counts as an undischarged obligation: no proof-level claim this run
